@@ -337,7 +337,8 @@ func c19Want(kind c19Kind, view c19View) string {
 }
 
 // c19CheckOne runs the real parser of the kind on one (field list, limit) pair and evaluates
-// the oracle. viol/view are the model's judgement of the list (size clause excluded).
+// the oracle. first is the first clause of the statement the model found violated ("" = none,
+// size clause excluded), size the decoded size of the section.
 func c19CheckOne(parse c19Parser, kind c19Kind, fs []c19Field, decodeErr bool, first string, size, limit int) (c19Out, *explore.Fail) {
 	over := size > limit
 	pred := "well-formed"
